@@ -5,7 +5,7 @@ use in_toto::models::DSSEVersion;
 use serde_json::json;
 
 pub fn run(r: &mut Report) {
-    let types = ["", "link", "a b", "12 3", " ", "https://in-toto.io/statement/v0.1", "\u{e9}t\u{20ac}"];
+    let types = ["", "link", "Link", "LINK", "a b", "12 3", " ", "https://in-toto.io/statement/v0.1", "https://in-toto.io/Statement/v0.1", "\u{e9}t\u{20ac}", "\u{c9}T\u{20ac}", " lead", "trail ", "a\tb", "a\nb"];
     let payloads: Vec<Vec<u8>> = vec![vec![], b" ".to_vec(), b"DSSEv1 4 link 0 ".to_vec(), b"7 x".to_vec(), vec![0, 255, 32, 48, 49]];
     let mut seen: Vec<(Vec<u8>, (String, Vec<u8>))> = vec![];
     for t in types {
@@ -63,7 +63,7 @@ pub fn run(r: &mut Report) {
         impl Rng { fn next(&mut self) -> u64 { let mut x = self.0; x ^= x << 13; x ^= x >> 7; x ^= x << 17; self.0 = x; x } fn below(&mut self, n: u64) -> u64 { self.next() % n } }
         let seed: u64 = std::env::var("VERIF_SEED").ok().and_then(|s| s.parse().ok()).unwrap_or(0);
         let mut rng = Rng(0xA0761D6478BD642F ^ seed.wrapping_mul(0xE7037ED1A0B428DB) | 1);
-        let tchars: Vec<char> = "ab 019/:\u{e9}\u{20ac}\u{1F600}".chars().collect();
+        let tchars: Vec<char> = "abAB zZ019/:.-_\t\n\u{e9}\u{c9}\u{20ac}\u{1F600}".chars().collect();
         let n = crate::util::scale(2000, 50000);
         let mut seen: std::collections::HashMap<Vec<u8>, (String, Vec<u8>)> = std::collections::HashMap::new();
         let mut bad = 0; let mut first = String::new();
